@@ -51,10 +51,11 @@ class SliceV:
 
 class MapV:
     """HashMap model: association list of [key, value] pairs (insertion order kept; iteration order is permuted by the iterator model)."""
-    __slots__ = ('items',)
+    __slots__ = ('items', 'order')
 
     def __init__(s):
         s.items = []
+        s.order = None      # iteration order chosen (symbolically) at the first iteration; reset by every structural change
 
 
 class SymPiece:
@@ -172,7 +173,8 @@ def ERR(e):
     return Adt('Result', 1, [e])
 
 
-SHARED_ADTS = {'Arc', 'Rc', 'Sender', 'Receiver', 'SyncSender', 'TimerGuard', 'Timer'}
+# a MIR `copy` of these is a pointer copy (Box is copied bitwise before its raw parts are projected), never a deep copy
+SHARED_ADTS = {'Arc', 'Rc', 'Sender', 'Receiver', 'SyncSender', 'TimerGuard', 'Timer', 'Box'}
 
 
 def deep_copy(v):
